@@ -39,8 +39,16 @@ def stream_spec(draw):
     seq = draw(gen.sequence_spec(max_len=5, max_desc=3))
     if not seq:
         seq = [gen.M("plain", draw(gen.record_spec(0)))]
+    if draw(st.integers(0, 3)) == 0:
+        # generations of ONE record type: every plain record's type gets the same name (the field lists differ)
+        names = [m.p["desc"][0] for m in seq if m.kind == "plain"]
+        if names:
+            seq = [gen.M("plain", dict(m.p, desc=(names[0], m.p["desc"][1]))) if m.kind == "plain" else m for m in seq]
     flush = [draw(st.booleans()) for _ in seq]
-    return {"seq": seq, "flush": flush, "sample": draw(st.lists(st.integers(0, 10**6), min_size=4, max_size=4))}
+    # a stream may be the work of several writer sessions appending to one file (each starts with its own header)
+    split_at = draw(st.one_of(st.none(), st.none(), st.integers(0, len(seq))))
+    return {"seq": seq, "flush": flush, "sample": draw(st.lists(st.integers(0, 10**6), min_size=4, max_size=4)),
+            "second_session_at": split_at}
 
 
 class Keep(io.BytesIO):
@@ -136,20 +144,26 @@ def _frames(plain):
 
 
 def _inflate_prefix(data):
-    """Independent recovery of the plaintext of a (possibly truncated) gzip member."""
-    d = zlib.decompressobj(31)
-    try:
-        return d.decompress(data)
-    except zlib.error:
-        # damaged header/body: recover incrementally what precedes the damage
+    """Independent recovery of the plaintext of a (possibly truncated) gzip file of one or more members."""
+    out = b""
+    rest = data
+    while rest:
         d = zlib.decompressobj(31)
-        out = b""
-        for i in range(len(data)):
-            try:
-                out += d.decompress(data[i : i + 1])
-            except zlib.error:
-                break
-        return out
+        try:
+            out += d.decompress(rest)
+        except zlib.error:
+            # damaged header/body: recover incrementally what precedes the damage
+            d = zlib.decompressobj(31)
+            for i in range(len(rest)):
+                try:
+                    out += d.decompress(rest[i : i + 1])
+                except zlib.error:
+                    break
+            return out
+        if not d.eof:
+            return out  # the member is cut: what could be inflated has been
+        rest = d.unused_data
+    return out
 
 
 def _expect_and_compare(obs_full, plain, got, exc, where, boundary_must_be_clean):
@@ -193,7 +207,13 @@ def check_truncate(kind):
         if records is None:
             return
         fp = Keep()
-        exc = _write_all(records, case["flush"], fp, "gz" if kind == "gz" else "stream")
+        k2 = case.get("second_session_at")
+        wrap_ = "gz" if kind == "gz" else "stream"
+        if k2 is None:
+            exc = _write_all(records, case["flush"], fp, wrap_)
+        else:
+            ctx.cls("two-writer-sessions-on-one-file")
+            exc = _write_all(records[:k2], case["flush"][:k2], fp, wrap_) or _write_all(records[k2:], case["flush"][k2:], fp, wrap_)
         if exc is not None:
             raise Violation(kind + "/write-raised", "undamaged write raised %r" % (exc,))
         data = fp.getvalue()
@@ -472,6 +492,6 @@ def parts(tier):
         Part("truncate-gz", check_truncate("gz"), strategy=stream_spec(), examples=(20, 400)),
         Part("write-fault", check_write_fault, strategy=stream_spec(), examples=(16, 300)),
         Part("large-frame-cuts", check_large_frame_cuts, cases=large_cases, exhaustive=True),
-        Part("transient-write-fault", check_transient_fault, strategy=stream_spec(), examples=(16, 300)),
+        Part("transient-write-fault", check_transient_fault, strategy=stream_spec(), examples=(120, 1500)),
         Part("truncate-bz2-lz4-zstd", check_truncate_codec, strategy=codec_stream_spec(), examples=(6, 150)),
     ]
